@@ -6,3 +6,6 @@ NOTES = ("One check per property: ./check <id>. Every run regenerates Gen/ from 
 TRANSLATED = []
 NOT_CLAIMED = {}
 CLAIMED = {}
+
+# properties whose check is integrated and green on /repo (others stay under not_applicable until they are)
+READY = ["C19", "C08", "C01", "C02"]
